@@ -155,7 +155,10 @@ unicode_wstfont2(unsigned int c, int italic)
 	} else /* 0xF000 ... 0xF7FF reserved for DRCS */
 		return invalid;
 
-	if (italic)
+	/* The font contains italic versions of the first 17 rows of
+	   32 glyphs only, Cyrillic 0x0440 ... 0x045F (row 17) has
+	   none. Row 48 would be past the end of the font image. */
+	if (italic && c < 17 * 32)
 		return c + 31 * 32;
 	else
 		return c;
